@@ -121,8 +121,13 @@ Definition run_utility (nm : name) (special : bool) (d : nat) (ex : bool) (saved
       let s1 := push_trace (hd 0%N args) s in
       done ex saved (set_status (match args with [_; st] => st | _ => 0%N end) s1)
   | NSet =>
+      (* `set +e`/`-e` = [0]/[1]; `set +m`/`-m` = [2]/[3]: job control does not
+         change when the shell exits *)
       done ex saved (set_status 0
-                 (set_errexit (match args with [b] => negb (N.eqb b 0) | _ => errexit s end) s))
+                 (set_errexit (match args with
+                               | [b] => if N.ltb b 2 then negb (N.eqb b 0) else errexit s
+                               | _ => errexit s
+                               end) s))
   | NBreak | NContinue =>
       match loop_operand args with
       | None => utility_error special 2 ex saved s
